@@ -15,18 +15,25 @@ import (
 	"verif/harness/sym"
 )
 
-// block renders a symbolic string as a GraphQL block string.  Assumed: it
-// does not contain three quotes in a row and does not end in a quote or a
-// backslash-quote (the only things a block string cannot hold verbatim).
+// block renders a symbolic string as a GraphQL block string whose content is
+// exactly s: quotes and backslashes are written as escapes (ggql's scanner
+// reads escapes inside block strings too), so three quotes in a row, a
+// trailing quote or a backslash are all inside the space.  The text length
+// depends on the bytes, which costs one fork per byte.
 func block(s string) string {
 	sym.Assume(utf8.ValidString(s)) // the property's domain: text
-	for i := 0; i+3 <= len(s); i++ {
-		sym.Assume(!(s[i] == '"' && s[i+1] == '"' && s[i+2] == '"'))
+	out := `"""`
+	for i := 0; i < len(s); i++ {
+		switch {
+		case s[i] == '"':
+			out += `\"`
+		case s[i] == '\\':
+			out += `\\`
+		default:
+			out += s[i : i+1]
+		}
 	}
-	if len(s) > 0 {
-		sym.Assume(s[len(s)-1] != '"')
-	}
-	return `"""` + s + `"""`
+	return out + `"""`
 }
 
 type c15Case struct {
@@ -41,16 +48,23 @@ var c15Cases = []c15Case{
 	{src: "type Query { a: Int @d(s: §S) } §D directive @d(§D s: String = §S n: Int = §I) on FIELD_DEFINITION", names: []string{"d"}},
 	{src: "type Query { i: I u: U s: Sc } §D interface I { §D x: Int } §D union U = A | B type A implements I { x: Int } type B { y: Int } §D scalar Sc"},
 	{src: "type Query { a: Int @deprecated(reason: §S) b(x: [String!]! = [§S]): [[Int]!] }"},
+	{src: "type Query { f(a: Float = 2500000.5 b: Float = 1e21 c: Float = 1e-7 d: [Float] = [0.5, -6.02e23] e: Float64 = 1.7976931348623157e308 s: String = §S): Int }"},
 }
 
 // C15_roundtrip
 func C15_roundtrip() {
 	c := c15Cases[sym.Choice("case", len(c15Cases))]
-	// quick: the description or the string default is symbolic (the other is
-	// a fixed text); thorough: both at once.  Up to 2 bytes each, all values.
-	maxLen := 2
-	which := 2
-	if !sym.Thorough() {
+	// which part is symbolic: 0 the description, 1 the string default (the
+	// other is a fixed text), 2 both.  quick: 0 or 1 with up to 2 bytes;
+	// thorough: 0 or 1 with up to 3 bytes (three quotes in a row need three),
+	// or both with up to 2 bytes each.  Every byte value (valid UTF-8).
+	which, maxLen := 0, 2
+	if sym.Thorough() {
+		which = sym.Choice("symbolic part", 3)
+		if which != 2 {
+			maxLen = 3
+		}
+	} else {
 		which = sym.Choice("symbolic part", 2)
 	}
 	desc, str := "d", "s"
